@@ -683,7 +683,7 @@ func c08SpawnChild(race bool, seed uint64, tier string, safe bool, rounds, only 
 	}
 	reports := c08ParseRaces(se.String())
 	if err != nil {
-		return nil, reports, "the race-detector child died: " + err.Error() + ": " + clip(se.String(), 600)
+		return nil, reports, "the race-detector child died: " + err.Error() + ": " + c08clip(se.String(), 600)
 	}
 	var o c08RaceOut
 	if e := json.Unmarshal(so.Bytes(), &o); e != nil {
@@ -792,8 +792,8 @@ func runC08(r *Run) {
 			x[k] = v
 		}
 		x["key"] = rep.Key
-		x["report"] = clip(rep.Text, 6000)
-		r.Fail(rep.Key, "the race detector reports a data race while goroutines log concurrently:\n"+clip(rep.Text, 1500), x)
+		x["report"] = c08clip(rep.Text, 6000)
+		r.Fail(rep.Key, "the race detector reports a data race while goroutines log concurrently:\n"+c08clip(rep.Text, 1500), x)
 	}
 	r.Extra["race_reports_per_site"] = perKey
 }
@@ -851,7 +851,7 @@ func replayC08(r *Run, file string) {
 			}
 			for _, rp := range reports {
 				if in.Key == "" || rp.Key == in.Key {
-					r.Fail(rp.Key, clip(rp.Text, 1500), nil)
+					r.Fail(rp.Key, c08clip(rp.Text, 1500), nil)
 				}
 			}
 		}
